@@ -1,7 +1,8 @@
 /-
   Model of the string functions of `src/completion.rs` (unix configuration):
   `unescape`, `escape`, `extract_word` (reverse scan with the escape-run counter),
-  `find_unclosed_quote` (five-mode scanner), `longest_common_prefix` (byte loop and the
+  `find_unclosed_quote` (five-mode scanner), `bare_word_start` (the private forward scan over the
+  same five modes that `complete_path` uses when no quote is open), `longest_common_prefix` (byte loop and the
   char-boundary back-off), `filename_complete` / `FilenameCompleter::complete_path` over a
   directory listing passed in as data.  Parametric in the break set and the escape character.
   Panics (`&line[..pos]` off a boundary or past the end) are `none`.
@@ -111,6 +112,34 @@ def findUnclosedQuote (s : Text) : Option (Nat × Quote) :=
   if r.1 = .doubleQuote ∨ r.1 = .escapeInDoubleQuote then some (r.2, .double)
   else if r.1 = .singleQuote then some (r.2, .single)
   else none
+
+/-! ### bare_word_start (private helper of `complete_path`, since the repair of D26) -/
+
+/-- one iteration of the forward loop of `bare_word_start`: (mode, start) at (index, char).
+    `brk` is the final `if may_break && is_break_char(char)`. -/
+def bareStep (isBreak : Char → Bool) (mode : ScanMode) (start : Nat) (index : Nat) (c : Char) :
+    ScanMode × Nat :=
+  let brk := if isBreak c then index + c.utf8Size else start
+  match mode with
+  | .doubleQuote =>
+    if c = '"' then (.normal, brk) else if c = '\\' then (.escapeInDoubleQuote, start) else (.doubleQuote, start)
+  | .escape => (.normal, start)
+  | .escapeInDoubleQuote => (.doubleQuote, start)
+  | .normal =>
+    if c = '\\' then (.escape, start)
+    else if c = '"' then (.doubleQuote, brk)
+    else if c = '\'' then (.singleQuote, brk)
+    else (.normal, brk)
+  | .singleQuote => if c = '\'' then (.normal, brk) else (.singleQuote, start)
+
+def bareGo (isBreak : Char → Bool) : Text → Nat → ScanMode → Nat → ScanMode × Nat
+  | [], _, mode, start => (mode, start)
+  | c :: t, index, mode, start =>
+    let r := bareStep isBreak mode start index c
+    bareGo isBreak t (index + c.utf8Size) r.1 r.2
+
+/-- `bare_word_start(s, is_break_char)` (not windows) -/
+def bareWordStart (isBreak : Char → Bool) (s : Text) : Nat := (bareGo isBreak s 0 .normal 0).2
 
 /-! ### longest_common_prefix (on bytes) -/
 
@@ -226,9 +255,10 @@ def parsePath (isBreak dqSpecial : Char → Bool) (line : Text) (pos : Nat) :
         if q = .double then some (idx + 1, unescape (some '\\') seg, some '\\', dqSpecial, q)
         else some (idx + 1, seg, none, isBreak, q)
     | none =>
-      match extractWord line pos (some '\\') isBreak with
-      | none => none
-      | some (start, w) => some (start, unescape (some '\\') w, some '\\', isBreak, .none)
+      let start := bareWordStart isBreak l
+      match splitAtByte l start with
+      | none => none      -- panic of `&line[start..pos]`; excluded by `bareWordStart_split`
+      | some (_, w) => some (start, unescape (some '\\') w, some '\\', isBreak, .none)
 
 inductive Outcome (α : Type) | ok (a : α) | panic | outOfModel
 deriving Repr, DecidableEq
